@@ -521,8 +521,37 @@ func (d *Decls) structMake(sortName string, fields []*Term) *Term {
 }
 
 // typeID returns the term for the dynamic type id of a concrete (or parametrised) type.
+// canonType removes aliases at every level so that identical types print identically.
+func canonType(t types.Type, depth int) types.Type {
+	if depth > 8 {
+		return t
+	}
+	switch tt := t.(type) {
+	case *types.Alias:
+		return canonType(types.Unalias(tt), depth+1)
+	case *types.Pointer:
+		return types.NewPointer(canonType(tt.Elem(), depth+1))
+	case *types.Slice:
+		return types.NewSlice(canonType(tt.Elem(), depth+1))
+	case *types.Array:
+		return types.NewArray(canonType(tt.Elem(), depth+1), tt.Len())
+	case *types.Map:
+		return types.NewMap(canonType(tt.Key(), depth+1), canonType(tt.Elem(), depth+1))
+	case *types.Signature:
+		conv := func(tu *types.Tuple) *types.Tuple {
+			var vs []*types.Var
+			for i := 0; i < tu.Len(); i++ {
+				vs = append(vs, types.NewVar(0, nil, "", canonType(tu.At(i).Type(), depth+1)))
+			}
+			return types.NewTuple(vs...)
+		}
+		return types.NewSignatureType(nil, nil, nil, conv(tt.Params()), conv(tt.Results()), tt.Variadic())
+	}
+	return t
+}
+
 func (d *Decls) typeID(t types.Type) *Term {
-	t = types.Unalias(t)
+	t = canonType(t, 0)
 	s := types.TypeString(t, nil)
 	if hasTypeParam(t) {
 		sym := "zz_tid_" + sanitize(typeStr(t))
